@@ -1,9 +1,9 @@
 package gts
 
 import (
-	"fmt"
 	"regexp"
 	"sort"
+	"strconv"
 	"strings"
 )
 
@@ -76,6 +76,26 @@ func repairLocations(locs []Location, force bool) []Location {
 	return ret
 }
 
+// classKey encodes the key and qualifiers of a feature so that two features
+// get the same string only if their keys and qualifier lists are equal.
+func classKey(f Feature) string {
+	b := strings.Builder{}
+	put := func(s string) {
+		b.WriteString(strconv.Itoa(len(s)))
+		b.WriteByte(':')
+		b.WriteString(s)
+	}
+	put(f.Key)
+	for _, prop := range f.Props {
+		b.WriteByte('[')
+		for _, s := range prop {
+			put(s)
+		}
+		b.WriteByte(']')
+	}
+	return b.String()
+}
+
 // Repair attempts to reconstruct features by joining features with identical
 // feature keys and values which have adjacent locations.
 func Repair(ff []Feature) []Feature {
@@ -85,7 +105,7 @@ func Repair(ff []Feature) []Feature {
 	// Identify the features with similar keys and values.
 	index := make(map[string][]int)
 	for i, f := range gg {
-		key := fmt.Sprintf("%s:%v", f.Key, f.Props)
+		key := classKey(f)
 		index[key] = append(index[key], i)
 	}
 
